@@ -67,6 +67,10 @@ def gen_att(rng, tier, seed):
         for c in svc['chars']:
             if rng.random() < 0.08:
                 c['kind'] = rng.choice(['raising_cb', 'raising_async_cb'])
+    # a service declaration that refuses to be read on this (plain) link: Read By Group Type / Read By Type over it still get one answer
+    for svc in db['services']:
+        if rng.random() < 0.12:
+            svc['decl_perms'] = 0x01 | rng.choice([0x04, 0x10, 0x40])
     twins = rng.random() < 0.2
     if twins:
         # many instances of one service: a search by UUID has more matches than fit into one response
